@@ -179,9 +179,9 @@ class TokNorm(ast.NodeTransformer):
         self.typevar, self.valvar, self.whole = typevar, valvar, whole
 
     def visit_Name(self, node):
-        if node.id == self.typevar:
+        if node.id == self.typevar or node.id in getattr(self, 'typevars', ()):
             return ast.Name(id='TOKTYPE', ctx=node.ctx)
-        if node.id == self.valvar:
+        if node.id == self.valvar or node.id in getattr(self, 'valvars', ()):
             return ast.Name(id='TOKVAL', ctx=node.ctx)
         return node
 
@@ -231,6 +231,26 @@ def token_sites(f, prog):
                 tn = TokNorm(whole=n.target.id)
             elif len(tv) >= 2:
                 tn = TokNorm(typevar=tv[0], valvar=tv[1])
+                # plain copies of the two components made in the loop body (`kind, text = a, b` left by an inlined helper)
+                tn.typevars, tn.valvars = {tv[0]}, {tv[1]}
+                stores_ = {}
+                for x in ast.walk(n):
+                    if isinstance(x, ast.Name) and isinstance(x.ctx, ast.Store):
+                        stores_[x.id] = stores_.get(x.id, 0) + 1
+                for _round in range(3):
+                    for a_ in [x for st_ in n.body for x in ast.walk(st_) if isinstance(x, ast.Assign) and len(x.targets) == 1]:
+                        t_, v_ = a_.targets[0], a_.value
+                        pairs_ = []
+                        if isinstance(t_, ast.Name):
+                            pairs_.append((t_, v_))
+                        elif isinstance(t_, (ast.Tuple, ast.List)) and isinstance(v_, (ast.Tuple, ast.List)) and len(t_.elts) == len(v_.elts):
+                            pairs_.extend(zip(t_.elts, v_.elts))
+                        for te_, ve_ in pairs_:
+                            if isinstance(te_, ast.Name) and isinstance(ve_, ast.Name) and stores_.get(te_.id, 0) == 1:
+                                if ve_.id in tn.typevars:
+                                    tn.typevars.add(te_.id)
+                                if ve_.id in tn.valvars:
+                                    tn.valvars.add(te_.id)
             else:
                 raise AnalysisError('token loop of %s does not unpack the token tuple' % f.name)
             site = Site(n, st, 'loop')
@@ -554,12 +574,35 @@ def run(prog, check):
                  'the list is returned as collected' if (not post and plain) else 'the list is re-ordered / de-duplicated / post-processed', 'x + y + x')
     # ---- R3 ----------------------------------------------------------------------------------------
     n3 = 0
-    for f in prog.all_functions():
+    seen3 = set()
+    for f_raw in prog.all_functions():
+        f = flatten(prog, f_raw)        # class-level constants, partials and helper parameters are resolved there
         for n in ast.walk(f.node):
             if isinstance(n, ast.Call) and call_name(n) == 'replace' and isinstance(n.func, ast.Attribute) and len(n.args) >= 2:
+                if (f.module.rel, n.lineno, n.col_offset) in seen3:
+                    continue
+                seen3.add((f.module.rel, n.lineno, n.col_offset))
                 a = n.args[0]
                 recv = n.func.value
                 cls_, ok = classify_replace(a, recv, n)
+                if not ok and isinstance(a, ast.Name):
+                    # a name that is only ever bound to literals (the rows of a substitution table): every literal is judged
+                    vals = []
+                    for d in ast.walk(f.node):
+                        if isinstance(d, ast.Assign) and len(d.targets) == 1:
+                            t, v = d.targets[0], d.value
+                            if isinstance(t, ast.Name) and t.id == a.id:
+                                vals.append(v)
+                            elif isinstance(t, (ast.Tuple, ast.List)) and isinstance(v, (ast.Tuple, ast.List)) and len(t.elts) == len(v.elts):
+                                for te, ve in zip(t.elts, v.elts):
+                                    if isinstance(te, ast.Name) and te.id == a.id:
+                                        vals.append(ve)
+                        elif isinstance(d, (ast.For, ast.comprehension)) and any(isinstance(x, ast.Name) and x.id == a.id for x in ast.walk(d.target)):
+                            vals.append(None)
+                    if vals and all(isinstance(v, ast.Constant) and isinstance(v.value, str) for v in vals):
+                        res = [classify_replace(v, recv, n) for v in vals]
+                        if all(r[1] for r in res):
+                            cls_, ok = 'a table of literals: ' + '; '.join(sorted({r[0] for r in res}))[:120], True
                 n3 += 1
                 check.ob('C13.R3', '%s::replace(%s)' % (f.key, unparse(a)), ok, '%s:%d' % (f.module.rel, n.lineno),
                          'classified as ' + cls_, 'a variable whose name is a substring of another variable')
@@ -579,7 +622,7 @@ def run(prog, check):
     check.floor('C13.R5', 2)
     check.floor('C13.R1', 5)
     check.floor('C13.R2', 2)
-    check.floor('C13.R3', 25)
+    check.floor('C13.R3', 5)
     check.floor('C13.R4', 2)
 
 
